@@ -60,6 +60,9 @@ func valSubject(v cat.Value) subject {
 type c14 struct {
 	res     *report.Result
 	verbose bool
+	// refs: the encoding of every envelope entry per serializer as obtained in the main pass,
+	// before the process has run any encode that fails (c14_fail_test.go); nil: not kept
+	refs map[string][]byte
 }
 
 func (h *c14) eval(clause string) {
@@ -101,6 +104,9 @@ func (h *c14) check(s, partner subject) interface{} {
 	sum := sha1.Sum(b)
 	if h.res.Seen("nontrivial", fmt.Sprintf("%x", sum[:8])) && len(b) > 0 {
 		h.res.Count("distinct_encodings_"+s.ser, 1)
+	}
+	if h.refs != nil && s.kind == "envelope" {
+		h.refs[refKey(s.ser, s.name)] = b
 	}
 	h.res.Count("bytes_encoded", int64(len(b)))
 	if int64(len(b)) > h.res.Counters["max_encoding_len"] {
@@ -257,7 +263,7 @@ func (h *c14) checkValue(all []cat.Value, i int) {
 }
 
 func runC14(res *report.Result) {
-	h := &c14{res: res}
+	h := &c14{res: res, refs: map[string][]byte{}}
 	envs, vals := cat.Envelopes(), cat.Values()
 	checkCatalogue(res, envs)
 	if res.Thorough() {
@@ -277,10 +283,13 @@ func runC14(res *report.Result) {
 	for i := range vals {
 		h.checkValue(vals, i)
 	}
+	// last, because from here on the process has seen failing encodes: every envelope once more
+	// after each failing envelope (c14_fail_test.go)
+	h.runAfterFailure(envs)
 	res.Count("catalogue_envelopes", int64(len(envs)))
 	res.Count("catalogue_values", int64(len(vals)))
 	res.Extra["exhaustive"] = true
-	res.Extra["bound"] = fmt.Sprintf("catalogue of %d envelopes (17 message types) x 2 serializers and %d values, of which %d envelopes and %d values exactly at one documented limit (1024 assets / participants / sub-allocations, 128 byte amounts, 32 byte nonces), see harness/codec/cat", len(envs), len(vals), nLimE, nLimV)
+	res.Extra["bound"] = fmt.Sprintf("catalogue of %d envelopes (17 message types) x 2 serializers and %d values, of which %d envelopes and %d values exactly at one documented limit (1024 assets / participants / sub-allocations, 128 byte amounts, 32 byte nonces), see harness/codec/cat; every envelope again after each of %d failing envelopes, %d rounds each", len(envs), len(vals), nLimE, nLimV, len(cat.FailingEnvelopes()), failRounds)
 	res.Note("second wallet backend id %d registered in-process: %v (needed for two-entry wallet address maps)", cat.SecondBackend, cat.SecondBackendRegistered)
 	res.Note("not expressible by the protobuf serializer (run with the native one only): ShutdownMsg with a 65535 byte reason (frame limit), ChannelSyncMsg without state (FromState dereferences the nil state)")
 	res.Note("limit catalogue: entries with 1024 participants that carry a 64 byte wallet address or signature per participant exceed the 65535 byte protobuf frame and are run with the native serializer only (entries_not_expressible_protobuf)")
